@@ -9,11 +9,6 @@ import (
 	"testing"
 )
 
-func fdIsOpen(fd int) bool {
-	var st syscall.Stat_t
-	return syscall.Fstat(fd, &st) == nil
-}
-
 func TestSonicvcScenarioC13CloseAfterPollerError(t *testing.T) {
 	ioc := MustIO()
 	defer ioc.Close()
